@@ -1,0 +1,12 @@
+//go:build verif
+
+// Contracts for govc (see /verif/DESIGN.md). Comment-only file: no executable code.
+
+package errors
+
+//@ property C03
+// WithStack / Wrap keep nil-ness: a nil error stays nil, a non-nil error stays non-nil
+//@ func WithStack(err) (r)
+//@   trusted
+//@   pure
+//@   ensures (r == nil) == (err == nil)
